@@ -155,6 +155,7 @@ def spec() -> Spec:
     return Spec(
         pid=PID,
         proof_modules=["EphVerif.Proofs.C12"],
+        soft_proof_modules=["EphVerif.Proofs.SystemHandshake"],
         driver="drv_c12",
         harness=harness,
         generate=generate,
